@@ -534,7 +534,10 @@ class Inliner(object):
     if count > MAX_BODY or has_yield != generator:
       return False
     # nested function definitions that close over helper locals would need renaming too: skip those helpers
-    if any(isinstance(x, (ast.FunctionDef, ast.Lambda, ast.ClassDef)) for x in walk_no_nested(n, include_self=False)):
+    if any(isinstance(x, (ast.FunctionDef, ast.AsyncFunctionDef, ast.ClassDef)) for x in walk_no_nested(n, include_self=False)):
+      return False
+    # lambdas are fine: a lambda parameter that shares its name with a helper local is renamed along with it (_expand)
+    if any(l.args.vararg or l.args.kwarg for l in ast.walk(n) if isinstance(l, ast.Lambda)):
       return False
     return True
 
@@ -636,6 +639,10 @@ class Inliner(object):
           x.id = rename[x.id]
         elif isinstance(x, ast.ExceptHandler) and x.name in rename:
           x.name = rename[x.name]
+        elif isinstance(x, ast.Lambda):
+          for a in x.args.posonlyargs + x.args.args + x.args.kwonlyargs:
+            if a.arg in rename and a.arg not in subst:
+              a.arg = rename[a.arg]
     if subst:
       class _Sub(ast.NodeTransformer):
         def visit_Name(self, n):
@@ -1360,6 +1367,13 @@ def load_program(root=None, overlay=None, inline=True):
   types0 = Types(repo0)
   if not inline:
     return repo0, types0
+  spec = _specialise(repo0)
+  base_trees = {}
+  if spec:
+    base_trees = spec
+    repo0 = Repo(root=root, overlay=overlay, trees=spec)
+    types0 = Types(repo0)
+    repo0.specialised = sorted(spec)
 
   class _Cx(object):
     repo = repo0
@@ -1375,10 +1389,68 @@ def load_program(root=None, overlay=None, inline=True):
       trees[m.relpath] = t
   if not trees:
     return repo0, types0
+  for k, t in base_trees.items():
+    trees.setdefault(k, t)
   repo1 = Repo(root=root, overlay=overlay, trees=trees)
   repo1.normalised_units = sorted(trees)
   repo1.absorbed = _drop_absorbed(repo1)
   return repo1, Types(repo1)
+
+
+def _specialise(repo):
+  """Template methods: a method m that class C inherits from a base B of the same module, and that calls a hook
+  `self.h(...)` which C (or a class between B and C) defines or overrides, is copied into C - exactly what
+  inheritance does at run time - so that the hook call resolves to one function in C's copy and can be spliced there.
+  Methods using super() or name-mangled attributes are left alone.  Returns {relpath: tree} of the modules changed."""
+  out = {}
+  for m in repo.modules.values():
+    added = []
+    for C in m.all_classes():
+      try:
+        mro = repo.mro(C)
+      except Exception:
+        continue
+      for B in mro[1:]:
+        if isinstance(B, tuple) or B.module is not m:
+          continue
+        for name, meth in B.methods.items():
+          if name in C.methods or repo.find_method(C, name) is not meth or isinstance(meth.node, ast.Lambda):
+            continue
+          if meth.is_property or any(d not in ('staticmethod', 'classmethod') for d in meth.decorators) or meth.is_staticmethod:
+            continue
+          n = meth.node
+          if any((isinstance(x, ast.Name) and x.id == 'super') or
+                 (isinstance(x, ast.Attribute) and x.attr.startswith('__') and not x.attr.endswith('__')) for x in ast.walk(n)):
+            continue
+          first = meth.params[0] if meth.params else None
+          hooks = {x.func.attr for x in ast.walk(n) if isinstance(x, ast.Call) and isinstance(x.func, ast.Attribute) and
+                   isinstance(x.func.value, ast.Name) and x.func.value.id == first}
+          poly = [h for h in hooks if repo.find_method(C, h) is not None and repo.find_method(C, h) is not repo.find_method(B, h)]
+          if poly:
+            added.append((C, meth, sorted(poly)))
+    if not added:
+      continue
+    tree = _clone(m.tree)
+    for x in ast.walk(tree):
+      if hasattr(x, '_parent'):
+        del x._parent
+    cls_nodes = {}
+    for x in ast.walk(tree):
+      if isinstance(x, ast.ClassDef):
+        cls_nodes.setdefault((x.name, x.lineno), x)
+    for C, meth, poly in added:
+      cn = cls_nodes.get((C.node.name, C.node.lineno))
+      if cn is None:
+        continue
+      cp = _clone(meth.node)
+      for x in ast.walk(cp):
+        for a in ('_parent', '_fi'):
+          if hasattr(x, a):
+            delattr(x, a)
+      cp._specialised_from = meth.key
+      cn.body.append(cp)
+    out[m.relpath] = tree
+  return out
 
 
 def _drop_absorbed(repo):
